@@ -160,6 +160,9 @@ struct Fault {
     noop_421: Option<usize>,
     /// answer this NOOP only after 1.5 x the client's read timeout
     slow_noop: Option<usize>,
+    /// answer the end of data of this message (1-based) only after 1.5 x the configured timeout (tokio runs only: the
+    /// tokio client has no deadline of its own, the send just takes longer)
+    slow_commit: Option<usize>,
 }
 
 fn parse_faults(s: &str) -> Option<HashMap<usize, Fault>> {
@@ -178,6 +181,7 @@ fn parse_faults(s: &str) -> Option<HashMap<usize, Fault>> {
             "t" => e.temp_rcpt = Some(n),
             "x" => e.noop_421 = Some(n),
             "s" => e.slow_noop = Some(n),
+            "w" => e.slow_commit = Some(n),
             _ => return None,
         }
     }
@@ -256,6 +260,9 @@ fn serve_conn(s: std::net::TcpStream, fault: Fault, cid: usize, log: ServerLog) 
                 commits += 1;
                 push(format!("C{}", content.trim()));
                 content.clear();
+                if fault.slow_commit == Some(commits) {
+                    std::thread::sleep(Duration::from_millis(SLOW_CLIENT_TIMEOUT_MS * 3 / 2));
+                }
                 let _ = w.write_all(b"250 queued\r\n");
                 if fault.drop_after == Some(commits) {
                     push("K".into());
@@ -445,7 +452,7 @@ fn drive(ctl: &Controller, plan: &Plan) -> bool {
 pub fn sched(args: &[&str]) -> Option<Vec<String>> {
     let [kind, max_size, min_idle, idle_ms, senders, sends, faults, schedule] = args else { return None };
     let plan = Plan {
-        timeout_ms: if faults.contains(":s") { SLOW_CLIENT_TIMEOUT_MS } else { 5000 },
+        timeout_ms: if faults.contains(":s") || faults.contains(":w") { SLOW_CLIENT_TIMEOUT_MS } else { 5000 },
         max_size: max_size.parse().ok()?,
         min_idle: min_idle.parse().ok()?,
         idle_ms: idle_ms.parse().ok()?,
